@@ -215,7 +215,8 @@ def build_impl(kind="drv", buf=None, hbuf=None, extra_flags=(), extra_srcs=(), o
         main_srcs = [os.path.join(REPO, "main.cpp")] + [os.path.join(REPO, s) for s in CLI_SRCS]
         flags.append("-DOPT_ON")
     else:
-        main_srcs = [os.path.join(HARNESS, kind + ".cpp")] + [os.path.join(HARNESS, s) for s in extra_srcs]
+        main_srcs = [os.path.join(HARNESS, kind + ".cpp")] + [os.path.join(HARNESS, s) for s in extra_srcs] + [os.path.join(REPO, s) for s in CLI_SRCS]
+        flags.append("-DOPT_ON")
     h = hashlib.sha256()
     h.update(repo_source_hash().encode())
     h.update(" ".join(flags).encode())
@@ -272,8 +273,8 @@ def run_lines(cmd, lines, shards=None, timeout=1800, env=None):
         e = dict(os.environ)
         if env:
             e.update(env)
-        p = subprocess.run(cmd, input="\n".join(part) + "\n", stdout=subprocess.PIPE, stderr=subprocess.PIPE,
-                           text=True, timeout=timeout, env=e)
+        p = subprocess.run(cmd, input="\n".join(part) + "\n", stdout=subprocess.PIPE, stderr=subprocess.DEVNULL,
+                           text=True, errors="replace", timeout=timeout, env=e)
         return p.stdout
 
     res = {}
